@@ -52,6 +52,7 @@ type gitscannerResult struct {
 
 func scanUnpushed(cb GitScannerFoundPointer, remote string) error {
 	logArgs := []string{
+		"-m",                           // show what a merge commit changed against each parent
 		"HEAD", "--branches", "--tags", // include all locally referenced commits, and a detached HEAD
 		"--not"} // but exclude everything that comes after
 
@@ -178,6 +179,7 @@ func parseScannerLogOutput(cb GitScannerFoundPointer, direction LogDiffDirection
 // from 'since' up to (but not including) the final state at ref
 func logPreviousSHAs(cb GitScannerFoundPointer, ref string, filter *filepathfilter.Filter, since time.Time) error {
 	logArgs := []string{
+		"-m", // show what a merge commit changed against each parent
 		fmt.Sprintf("--since=%v", git.FormatGitDate(since)),
 	}
 	// Add standard search args to find lfs references
